@@ -128,6 +128,12 @@ func validDocs(u *universe, t *target, c *vf.Ctx, n int) []any {
 }
 
 var handDocs = map[string][]string{
+	// fully populated: every byte-slice / byte-array / pointer-to-array / numeric-string / big-int position exists
+	"ByteArrs": {`{"a":["0x0a11181f","0x99007f80"],"h":{"data":"0x7f0174e60100","type":3},"i":{"data":"0x018039807fe67fff","type":9},"l":["0x0001ff01"],"lI":[{"data":"0x7f5500017f7f8000","type":9}],"lP":["0x7f7f0180"],"m":{"ezg":"0x7f9a80ff"},"mA":{"fjz":"0x805c"},"mI":{"gv":{"data":"0x7f808080ffff7f7f","type":9}},"p":"0x57808000","q":"0x000101","s":{"data":"0x017f0101ff00","type":3},"sL":[{"data":"0x7f7f0012716c","type":3}],"v":"0x0180ff00","w":"0x80797ff220"}`},
+	"ByteFields": {`{"a":"0x01","b":"0x0203","c":"0x04","d":"0x01020304","e":"0x0000000000000000000000000000000000000000000000000000000000000001","f":"0x05","g":{"data":"0x0102030405060708","type":9}}`},
+	"PtrArr":     {`{"a":"0x01020304","i":{"data":"0x0102030405060708","type":9},"u":[1,2,3]}`},
+	"Prims":      {`{"b":true,"i8":1,"i16":2,"i32":3,"i64":"4","u8":5,"u16":6,"u32":7,"u64":"8","f32":"1.5","f64":"2.5"}`},
+	"BigTime":    {`{"n":"0x1f","t":"1700000000000000000","m":"0x2"}`},
 	"Maps":    {`{"a":{"1":2,"200":65535},"b":{"k":{"x":1,"y":2}},"c":{"7":"0x0102"}}`, `{"a":{},"b":{},"c":{}}`},
 	"MapU8":   {`{"1":2,"3":4}`},
 	"Counted": {`{"l":[1,2,3],"m":{"1":5},"p":7,"s":[9]}`},
@@ -212,6 +218,36 @@ func genBatch(c *vf.Ctx, u *universe, name string) []Case {
 					k++
 				}
 			})
+			// every string of length 0..3 over the structural alphabet at every string node of the
+			// first document and of the hand-written (fully populated) documents
+			isHand := false
+			for _, h := range handDocs[t.name] {
+				var hd any
+				if json.Unmarshal([]byte(h), &hd) == nil && bytes.Equal(jmarshal(hd), jmarshal(doc)) {
+					isHand = true
+				}
+			}
+			if di == 0 || isHand {
+				ks := 0
+				jwalk(doc, nil, func(p jpath, n any) {
+					if _, ok := n.(string); !ok || len(p) == 0 {
+						return
+					}
+					for _, str := range shortStrings() {
+						for _, val := range []bool{false, true} {
+							if val && len(str) > 2 {
+								continue
+							}
+							cs := mkCase("json", t.name, val, jmarshal(jset(doc, p, str)), fmt.Sprintf("node-string->short-%s@%v #%d", str, p, di))
+							if ks%8 == 0 {
+								cs.Fam = "map"
+							}
+							ks++
+							out = append(out, cs)
+						}
+					}
+				})
+			}
 			full := jmarshal(doc)
 			rng := c.Rand(fmt.Sprintf("jtrunc/%s/%d", t.name, di))
 			for i := 0; i < 6 && len(full) > 1; i++ {
@@ -295,7 +331,7 @@ func runCase(c *vf.Ctx, r *runner, cs *Case, cal *calib, perFP map[string]int) {
 		}
 	}
 	c.Count("mutation:"+cs.kind(), 1)
-	for _, cl := range []string{"hexlen", "numstr", "hexform", "long"} {
+	for _, cl := range []string{"hexlen", "numstr", "hexform", "long", "short"} {
 		if strings.Contains(cs.Org, "->"+cl+"-") {
 			c.Count(cl+"_mutants_tried", 1)
 			switch out {
@@ -540,7 +576,7 @@ func run(c *vf.Ctx) {
 		replay(c)
 		return
 	}
-	c.SetRule("each evaluation is one call of a decoder entry point (serix.Decode into one of ~55 registered destination types incl. ds.Set/SerializableOrderedMap.Decode; JSONDecode/MapDecode; 19 Deserializer primitives and chains of them; 10 stream Read* helpers; typeutils) on one input, in a GOMAXPROCS=1 child under ulimit -v, observed by recover, returned (n, err), MemStats.TotalAlloc delta and a count of element-decoder invocations. Binary inputs: seeded valid encodings, every truncation, 8/16/32-bit substitution of {0,1,2,3,±1,0x7f..,0xff..,2^28,…} at every (sampled above 40/120 bytes) offset, bit flips, splices, insert/delete, random strings 0–64 bytes; JSON: every node of every valid document replaced by every other JSON kind and by out-of-range/fractional/negative numbers and bad hex / numeric strings; every string node additionally by well-formed 0x-hex decoding to 0, 1, N-1, N+1, 2N, 1000 (and 3/5/9/31/33) bytes where N is the original decoded length, by numeric-string spellings (too many digits, leading zeros, signs, exponent, blanks, int64/uint64 borders), by hex-form ambiguities (no prefix, odd digits, upper case, 256/257-bit quantities) and, in the first document of each target, by 64 KiB strings (plain, digits, valid hex); every member removed, extra members; all x validation on/off. Long inputs for every family (stream helpers through plain, one-byte, 4096- and 4097-byte-chunk readers; Deserializer byte-slice/string/sequence/payload primitives; serix []byte/string/[]uint16/map/[]custom destinations with uint16/uint32 prefixes; JSON strings): 4 KiB, 4 KiB+1, 8 KiB, 64 KiB and 1 MiB of real data behind a prefix denoting exactly the data, data±1, 2x, 2^28, 2^31, the maximum of the width and (uint64) 2^40, 2^63-1, 2^63; for these the allocation bound is additionally capped at 16 MiB + K*len (K=16, element-wise serix 64; measured maxima in calibration). distinct_nontrivial counts distinct (family, target, validation, mutation kind, outcome class) tuples, outcome class = accepted | panic | root error message with numbers stripped – i.e. distinct decoder behaviours actually reached per target and mutation")
+	c.SetRule("each evaluation is one call of a decoder entry point (serix.Decode into one of ~55 registered destination types incl. ds.Set/SerializableOrderedMap.Decode; JSONDecode/MapDecode; 19 Deserializer primitives and chains of them; 10 stream Read* helpers; typeutils) on one input, in a GOMAXPROCS=1 child under ulimit -v, observed by recover, returned (n, err), MemStats.TotalAlloc delta and a count of element-decoder invocations. Binary inputs: seeded valid encodings, every truncation, 8/16/32-bit substitution of {0,1,2,3,±1,0x7f..,0xff..,2^28,…} at every (sampled above 40/120 bytes) offset, bit flips, splices, insert/delete, random strings 0–64 bytes; JSON: every node of every valid document replaced by every other JSON kind and by out-of-range/fractional/negative numbers and bad hex / numeric strings; every string node additionally by well-formed 0x-hex decoding to 0, 1, N-1, N+1, 2N, 1000 (and 3/5/9/31/33) bytes where N is the original decoded length, by numeric-string spellings (too many digits, leading zeros, signs, exponent, blanks, int64/uint64 borders), by every string of length 0..3 over the alphabet {0,x,X,1,a,g,-,+,.,e} (first and hand-written fully populated documents; also fed directly to serix.DecodeHex/DecodeUint256/DecodeUint64), by hex-form ambiguities (no prefix, odd digits, upper case, 256/257-bit quantities) and, in the first document of each target, by 64 KiB strings (plain, digits, valid hex); every member removed, extra members; all x validation on/off. Long inputs for every family (stream helpers through plain, one-byte, 4096- and 4097-byte-chunk readers; Deserializer byte-slice/string/sequence/payload primitives; serix []byte/string/[]uint16/map/[]custom destinations with uint16/uint32 prefixes; JSON strings): 4 KiB, 4 KiB+1, 8 KiB, 64 KiB and 1 MiB of real data behind a prefix denoting exactly the data, data±1, 2x, 2^28, 2^31, the maximum of the width and (uint64) 2^40, 2^63-1, 2^63; for these the allocation bound is additionally capped at 16 MiB + K*len (K=16, element-wise serix 64; measured maxima in calibration). distinct_nontrivial counts distinct (family, target, validation, mutation kind, outcome class) tuples, outcome class = accepted | panic | root error message with numbers stripped – i.e. distinct decoder behaviours actually reached per target and mutation")
 	u := newUniverse()
 	bs := batchNames(u)
 	if only := os.Getenv("C02_ONLY"); only != "" { // debugging aid: restrict to batches with this prefix
@@ -578,6 +614,8 @@ func run(c *vf.Ctx) {
 	c.Require("numstr_mutants_tried", 3000)
 	c.Require("hexform_mutants_tried", 2000)
 	c.Require("long_mutants_tried", 100)
+	c.Require("short_mutants_tried", 50000)
+	c.Require("short_mutants_accepted", 500)
 	c.Require("long_input_cases:stream", 1000)
 	c.Require("long_input_cases:prim", 400)
 	c.Require("long_input_cases:serix", 300)
